@@ -11,9 +11,19 @@ import numpy as np
 
 from pv.ref import c20_ellipse as ref
 
-FIT_CLASSES = ['sersic', 'gauss', 'geo_step', 'linear', 'fix_center', 'fix_pa', 'fix_eps', 'fix_two',
-               'area_mean', 'area_median', 'nearest', 'pa_edge', 'eps_edge', 'offcentre', 'truth_start',
-               'fix_noniter', 'controls']
+FIT_CLASSES = ['free', 'geo_step', 'linear', 'fixed', 'area', 'nearest', 'pa_edge', 'eps_edge', 'offcentre',
+               'truth_start', 'fix_noniter', 'controls']
+# composite classes: the sub-class is drawn per case (keeps the number of classes, each of which every run must
+# reach, small enough for a heavily loaded machine)
+SUBCLASSES = {'free': ['sersic', 'gauss'], 'fixed': ['fix_center', 'fix_pa', 'fix_eps', 'fix_two'],
+              'area': ['area_mean', 'area_median']}
+
+
+REPRS_FIT = ['float32', 'float32', 'uint16', 'uint16', 'int16', 'int32', 'fortran', 'strided', 'bigendian',
+             'transposed_view', 'masked_empty']
+REPRS_ALL = ['float32', 'uint16', 'int16', 'int32', 'fortran', 'strided', 'bigendian', 'transposed_view',
+             'masked_empty', 'masked_nomask', 'masked_far']
+INT_PEAK = {'uint16': 6.0e4, 'int16': 3.0e4, 'int32': 2.0e9}
 
 
 def _size(rng, tier):
@@ -23,8 +33,34 @@ def _size(rng, tier):
     return ny, nx
 
 
+def draw_axes(rng, cls, small):
+    """Generic axes drawn independently of the generator class (about half of the cases stay plain):
+    frame shape, data magnitude, image dtype/layout/container, call forms of the geometry arguments."""
+    ax = dict(plain=bool(rng.random() < 0.5), frame=None, magnitude=None, image_repr=None, pa_form=None,
+              centre_np=False, sma_int=False, peak_frac=float(rng.uniform(0.35, 1.0)))
+    r = rng.random(6)
+    k = int(rng.integers(-50, 31))
+    dec = float(10.0 ** rng.uniform(-15.0, 9.0))
+    i_repr = int(rng.integers(0, len(REPRS_FIT)))
+    i_pa = int(rng.integers(0, 3))
+    if ax['plain']:
+        return ax
+    if not small and cls not in ('area_mean', 'area_median', 'offcentre') and r[0] < 0.35:
+        ax['frame'] = 'elongated'
+    if r[1] < 0.4:
+        ax['magnitude'] = ('pow2', float(2.0 ** k)) if r[1] < 0.2 else ('decimal', dec)
+    if r[2] < 0.4:
+        ax['image_repr'] = REPRS_FIT[i_repr]
+    if r[3] < 0.4:
+        ax['pa_form'] = ['negative', 'above_pi', 'numpy_float64'][i_pa]
+    ax['centre_np'] = bool(r[4] < 0.3)
+    ax['sma_int'] = bool(r[5] < 0.3)
+    return ax
+
+
 def draw_truth(rng, cls, tier, small=False):
     """Galaxy truth: frame, centre, eps, pa, radial law."""
+    axes = draw_axes(rng, cls, small)
     ny, nx = _size(rng, tier)
     if small or cls in ('area_mean', 'area_median'):
         # the area integrators scan pixels in pure Python: keep the frame small
@@ -34,6 +70,19 @@ def draw_truth(rng, cls, tier, small=False):
     span = 0.12 if cls != 'offcentre' else 0.22
     x0 = float(nx / 2 + rng.uniform(-span, span) * nx)
     y0 = float(ny / 2 + rng.uniform(-span, span) * ny)
+    el = rng.random(5)
+    if axes['frame'] == 'elongated':
+        # strongly non-square frame, galaxy near the far end of the long axis (still >= 0.36 short sides inside)
+        short = int(61 + el[0] * 21)
+        long_ = int(161 + el[1] * 61)
+        d = (0.36 + 0.14 * el[2]) * short
+        along = (long_ - 1 - d) if el[3] < 0.7 else d
+        across = short / 2 + (el[4] - 0.5) * 0.2 * short
+        if int(el[0] * 1000) % 2:
+            ny, nx, x0, y0 = short, long_, float(along), float(across)
+        else:
+            ny, nx, x0, y0 = long_, short, float(across), float(along)
+        m = short
     eps = float(rng.uniform(0.05, 0.8))
     pa = float(rng.uniform(0.0, math.pi))
     if cls == 'pa_edge':
@@ -47,6 +96,8 @@ def draw_truth(rng, cls, tier, small=False):
     kind = 'gauss' if cls == 'gauss' else ('sersic' if cls == 'sersic' else
                                            ('gauss' if rng.random() < 0.3 else 'sersic'))
     amp = float(10.0 ** rng.uniform(0.0, 3.0))
+    if axes['magnitude']:
+        amp = axes['magnitude'][1]
     if kind == 'sersic':
         n = float(rng.uniform(0.7, 4.0))
         scale = float(rng.uniform(0.10, 0.30) * m)
@@ -55,7 +106,7 @@ def draw_truth(rng, cls, tier, small=False):
         scale = float(rng.uniform(0.11, 0.20) * m)
     background = float(rng.choice([0.0, 0.0, amp * rng.uniform(0.01, 0.5)]))
     return dict(shape=[ny, nx], x0=x0, y0=y0, eps=eps, pa=pa, kind=kind, amp=amp, scale=scale, n=n,
-                background=background)
+                background=background, axes=axes, law_scale=1.0)
 
 
 def draw_init(rng, spec, sma0=None):
@@ -73,7 +124,10 @@ def draw_init(rng, spec, sma0=None):
 
 def draw(rng, cls, tier):
     """Draw truth + initial geometry + fit_image keywords for generator class `cls`."""
+    if cls in SUBCLASSES:
+        cls = SUBCLASSES[cls][int(rng.integers(0, len(SUBCLASSES[cls])))]
     spec = draw_truth(rng, cls, tier)
+    spec['subclass'] = cls
     m = min(spec['shape'])
     init = draw_init(rng, spec)
     sma0 = init['sma']
@@ -151,6 +205,22 @@ def draw(rng, cls, tier):
             kw['maxrit'] = float(rng.uniform(0.6 * sma0, maxsma))
         if rng.random() < 0.3:
             kw['maxsma'] = float(rng.uniform(0.65, 1.0) * m)
+    axes = spec['axes']
+    ex = rng.random(4)
+    extra_fix = None
+    if not axes['plain'] and cls not in ('controls', 'fix_noniter'):
+        # option combinations drawn independently of the class
+        if ex[0] < 0.15 and 'maxrit' not in kw:
+            kw['maxrit'] = float(sma0 * 1.15 + ex[1] * max(0.9 * maxsma - 1.15 * sma0, 1.0))
+        if ex[2] < 0.2 and cls not in ('fix_center', 'fix_pa', 'fix_eps', 'fix_two', 'truth_start'):
+            extra_fix = ['fix_center', 'fix_pa', 'fix_eps'][int(ex[3] * 3) % 3]
+    if axes['image_repr'] in ('masked_empty',):
+        kw['maxsma'] = min(kw['maxsma'], 18.0)      # MaskedArray element access is ~20x slower
+    if axes['sma_int']:
+        sma0 = float(int(round(sma0)))
+        init['sma'] = sma0
+        if 'maxrit' in kw and cls == 'fix_noniter' and regime == 'maxrit_below_sma0':
+            kw['maxrit'] = min(kw['maxrit'], 0.95 * sma0)
     if rng.random() < 0.7:
         kw['sma0'] = sma0          # else taken from the geometry object
 
@@ -164,6 +234,8 @@ def draw(rng, cls, tier):
     elif cls == 'fix_two':
         a, b = [('fix_center', 'fix_pa'), ('fix_center', 'fix_eps'), ('fix_pa', 'fix_eps')][int(rng.integers(0, 3))]
         fix[a] = fix[b] = True
+    elif extra_fix:
+        fix[extra_fix] = True
     elif cls == 'fix_noniter' or (cls == 'controls' and rng.random() < 0.4):
         combos = [('fix_center',), ('fix_pa',), ('fix_eps',), ('fix_center', 'fix_pa'), ('fix_center', 'fix_eps'),
                   ('fix_pa', 'fix_eps')]
@@ -191,7 +263,52 @@ def draw(rng, cls, tier):
 def law_of(spec):
     f = ref.radial_law(spec['kind'], spec['amp'], spec['scale'], spec['n'])
     bg = spec['background']
-    return lambda r: f(r) + bg
+    sc = spec.get('law_scale', 1.0)
+    return lambda r: sc * (f(r) + bg)
+
+
+def apply_repr(img, kind, spec=None, peak_frac=1.0, far_radius=None):
+    """Image `img` (float64, C order) in another dtype / layout / container.
+
+    Returns (library_image, monitor_image, scale): monitor_image is a plain float64 C array holding exactly the
+    values of library_image (so results must not depend on the representation); scale = factor applied to the
+    values (integer kinds are rescaled to bright counts and rounded)."""
+    if kind is None:
+        return img, img, 1.0
+    if kind in INT_PEAK:
+        sc = peak_frac * INT_PEAK[kind] / float(img.max())
+        v = np.rint(img * sc).astype(kind)
+        return v, v.astype(np.float64), sc
+    if kind == 'float32':
+        v = img.astype(np.float32)
+        return v, v.astype(np.float64), 1.0
+    if kind == 'fortran':
+        return np.asfortranarray(img), img, 1.0
+    if kind == 'transposed_view':
+        return np.ascontiguousarray(img.T).T, img, 1.0
+    if kind == 'strided':
+        big = np.full((2 * img.shape[0] + 3, 3 * img.shape[1] + 2), -1.0e30)
+        big[3::2, 2::3] = img
+        return big[3::2, 2::3], img, 1.0
+    if kind == 'bigendian':
+        return img.astype('>f8'), img, 1.0
+    if kind == 'masked_empty':
+        return np.ma.MaskedArray(img.copy(), mask=np.zeros(img.shape, bool)), img, 1.0
+    if kind == 'masked_nomask':
+        return np.ma.MaskedArray(img.copy()), img, 1.0
+    if kind == 'masked_far':
+        yy, xx = np.mgrid[0:img.shape[0], 0:img.shape[1]]
+        rr = ref.elliptical_radius(xx, yy, spec['x0'], spec['y0'], spec['eps'], spec['pa'])
+        return np.ma.MaskedArray(img.copy(), mask=rr > far_radius), img, 1.0
+    raise ValueError(kind)
+
+
+def int_repr_ok(spec, kind, maxsma):
+    """Integer kinds only for modest dynamic range (rounding to counts must stay negligible noise)."""
+    if kind not in INT_PEAK:
+        return True
+    f = law_of(spec)
+    return float(f(maxsma * 1.3)) / float(f(0.0)) >= 1.0 / 300.0
 
 
 def image_of(spec):
